@@ -416,3 +416,25 @@ def open_in_append_mode_recovers_counters():
         prove(mode + ":table-counters-are-the-row-counts", And(c["particles_meta"] == n_p, c["waveforms"] == n_w))
         prove(mode + ":absent-tables-start-at-zero", And(c["triggers"] == 0, c["rays_meta"] == 0, c["noise"] == 0, c["mc_triggers"] == 0))
         prove(mode + ":is-open", w.is_open)
+
+
+@harness(clause="rejections")
+def failed_trigger_write_leaves_no_row_for_later_events_to_reuse():
+    """a _write_trigger that fails part-way (a per-waveform trigger list shorter than the number of waveforms) has already
+    grown the tables: the row counters must cover every row that exists, so that the next accepted event starts on
+    fresh rows and never reads the rejected call's leftovers (representation invariant: counter == table length)"""
+    w, f, idx, counters, n_ev = _writer(["triggers", "mc_triggers"])
+    _with_detector(w, (2, 1))
+    f.nodes[LOCS["mc_triggers"]].attrs["keys"] = []
+    use_stub("pyrex.io.HDF5Base._encode_attr", lambda self, s: s)
+    use_stub("pyrex.io.HDF5Base._decode_attr", lambda self, s: s)
+    outcome = "ok"
+    try:
+        w._write_trigger({"global": True, "B": True, "A": [True]}, include_antennas=False)
+    except IndexError:
+        outcome = "IndexError"
+    prove("short-component-list-is-rejected", outcome == "IndexError")
+    trig = f.nodes[LOCS["triggers"]]
+    extra = f.nodes[LOCS["mc_triggers"]]
+    prove("trigger-counter-covers-every-existing-row", counters["triggers"] == trig.shape[0])
+    prove("component-counter-covers-every-existing-row", counters["mc_triggers"] == extra.shape[0])
